@@ -378,6 +378,66 @@ pub fn run(tier: Tier) -> i32 {
             }
         }
     }
+    // ---- stave mode, two FEE ids (staves 3 and 35 of layer 5) on one link id, delivered unit after unit and
+    //      alternating per HBF; a lane bunch-counter mismatch on the first / the second / both FEEs: exit = N
+    {
+        let mk = |which: u8, alternate: bool| -> Vec<u8> {
+            let mut units: Vec<Vec<grammar::PacketT>> = Vec::new();
+            for (u, stave_no) in [(0u8, 3u8), (1, 35)] {
+                let mut cfg = grammar::LinkCfg::ol(1 + u, stave_no, false);
+                cfg.link_id = 1;
+                cfg.bc_step = 0x40;
+                let shapes: Vec<grammar::HbfShape> = grammar::stave_hbf_shapes(&cfg).into_iter().map(|s| s.1).collect();
+                let mut pk = grammar::render_link(&cfg, &[shapes[0].clone(), shapes[2].clone(), shapes[0].clone()]);
+                if which & (1 << u) != 0 {
+                    'f: for p in pk.iter_mut() {
+                        if let Some(wi) = p.words.iter().position(|w| w.kind == grammar::WKind::Data) {
+                            let off = p.word_rel_offset(wi) as usize - 64;
+                            p.packet.payload[off + 1] ^= 0x01;
+                            break 'f;
+                        }
+                    }
+                }
+                units.push(pk);
+            }
+            let mut out = Vec::new();
+            if alternate {
+                // HBF-wise alternation: cut each unit at its stop packets
+                let mut cur = [0usize; 2];
+                while cur[0] < units[0].len() || cur[1] < units[1].len() {
+                    for u in 0..2 {
+                        while cur[u] < units[u].len() {
+                            let p = &units[u][cur[u]];
+                            out.extend(p.packet.bytes());
+                            cur[u] += 1;
+                            if p.packet.rdh.stop_bit == 1 {
+                                break;
+                            }
+                        }
+                    }
+                }
+            } else {
+                for u in &units {
+                    for p in u {
+                        out.extend(p.packet.bytes());
+                    }
+                }
+            }
+            out
+        };
+        for alternate in [false, true] {
+            for which in 0u8..4 {
+                for (e, n) in [(None, 0), (Some("7"), 7)] {
+                    let mut a = s(&["check", "all", "its-stave"]);
+                    if let Some(x) = e {
+                        a.extend(s(&["-E", x]));
+                    }
+                    let exit = if which == 0 { Exit::Code(0) } else { Exit::Code(n) };
+                    cases.push(Case { label: format!("two FEE ids on one link (stave mode), lane fault on FEEs {which:#04b}, alternating {alternate}, -E {:?}", e), input: Input::Bytes(mk(which, alternate)), args: a, exit, total: None, shown: None, must_not_exist: vec![] });
+                }
+            }
+        }
+    }
     // ---- unreadable / unrecognisable input
     let text: Vec<u8> = b"hello world, this is not ALICE data, but it is longer than sixty-four bytes for sure......".to_vec();
     for (label, input) in [
